@@ -22,7 +22,9 @@
 (***************************************************************************)
 EXTENDS Rewrite, TLC, Json, IOUtils, FiniteSetsExt
 CONSTANTS Family, G, LTwo,     \* LTwo: the labels family includes two-series blocks and two-request lists
-          EmitTwoRequests  \* leg B also gets the inputs of the time family that have two requests
+          EmitTwoRequests, \* leg B also gets the inputs of the time family that have two requests
+          Relabel          \* phase 2: relabel modifier applied before the deletion modifier:
+                           \* "none" | "dropb" (labeldrop b) | "mapa" (a in {1,2} -> 0) | "dropa2" (drop series with a=2)
 
 Val(i, t) == 1000 * i + t
 MkChunks(i, tss) == [c \in DOMAIN tss |-> [k \in DOMAIN tss[c] |-> [t |-> tss[c][k], v |-> Val(i, tss[c][k])]]]
@@ -45,7 +47,13 @@ TimeInputs ==
         rs \in ({ << Req(<< M("a", "EQ", <<"1">>) >>, l) >> : l \in { x \in IvLists : Len(x) < 2 \/ x[1].lo <= x[2].lo } }
                \cup { << Req(<< M("a", "EQ", <<"1">>) >>, <<x>>), Req(<< M("a", "RE", <<"1", "2">>) >>, <<y>>) >> : x \in Ivs, y \in Ivs }) }
 
-MatcherPool == { M("a", "EQ", <<"1">>), M("a", "NEQ", <<"1">>), M("a", "EQ", <<"">>), M("a", "RE", <<"1", "2">>),
+WRelabel(ls) ==
+    CASE Relabel = "dropb"  -> SelectSeq(ls, LAMBDA x : x.n # "b")
+      [] Relabel = "mapa"   -> [k \in DOMAIN ls |-> IF ls[k].n = "a" /\ ls[k].v \in {"1", "2"} THEN [n |-> "a", v |-> "0"] ELSE ls[k]]
+      [] Relabel = "dropa2" -> IF \E k \in DOMAIN ls : ls[k].n = "a" /\ ls[k].v = "2" THEN <<>> ELSE ls
+      [] OTHER -> ls
+MatcherPool == (IF Relabel = "mapa" THEN { M("a", "EQ", <<"0">>) } ELSE {}) \cup
+               { M("a", "EQ", <<"1">>), M("a", "NEQ", <<"1">>), M("a", "EQ", <<"">>), M("a", "RE", <<"1", "2">>),
                  M("a", "NRE", <<"2">>), M("b", "EQ", <<"1">>), M("b", "NEQ", <<"1">>) }
 LabelChoices == { (IF a = "" THEN <<>> ELSE << [n |-> "a", v |-> a] >>) \o (IF b = "" THEN <<>> ELSE << [n |-> "b", v |-> b] >>)
                   : a \in {"", "1", "2"}, b \in {"", "1"} }
@@ -60,8 +68,19 @@ LabelInputs ==
 
 (* cases carry grid times only; the model (and the harness) give sample i-th series, time t the value 1000*i+t *)
 AbstractInputs == IF Family = "time" THEN TimeInputs ELSE LabelInputs
-Concrete(inp) == [series |-> [i \in DOMAIN inp.series |-> [labels |-> inp.series[i].labels, chunks |-> MkChunks(i, inp.series[i].chunks)]],
+Concrete(inp) == [series |-> [i \in DOMAIN inp.series |-> [labels |-> inp.series[i].labels, chunks |-> MkChunks(i, inp.series[i].chunks),
+                                                            to |-> WRelabel(inp.series[i].labels)]],
                   reqs |-> inp.reqs]
+(* RelabelModifier.Modify: series with one target merged into a single chunk, one sample per time (the  *)
+(* value of the first series in block order that has it)                                               *)
+Merged(ss) ==
+    LET mk(lset) == LET idx == { i \in DOMAIN ss : ss[i].to # <<>> /\ LabelSet(ss[i].to) = lset }
+                        pts == { x[1] : x \in UNION { SeriesSamples(ss[i]) : i \in idx } }
+                        ts == SortSeq(SetToSeq(pts), LAMBDA a, b : a < b)
+                        val(t) == LET i == CHOOSE i \in idx : (\E x \in SeriesSamples(ss[i]) : x[1] = t) /\ \A j \in idx : (\E x \in SeriesSamples(ss[j]) : x[1] = t) => i <= j
+                                  IN (CHOOSE x \in SeriesSamples(ss[i]) : x[1] = t)[2]
+                    IN [labels |-> ss[CHOOSE i \in idx : TRUE].to, chunks |-> << [k \in DOMAIN ts |-> [t |-> ts[k], v |-> val(ts[k])]] >>]
+    IN SetToSeq({ mk(l) : l \in WTargets(ss) })
 
 VARIABLES in,    \* the block and the requests (concrete)
           pc,    \* "series" | "chunks" | "done"
@@ -71,6 +90,8 @@ VARIABLES in,    \* the block and the requests (concrete)
           cur,   \* chunks kept so far for the current series
           out    \* series written so far
 vars == <<in, pc, si, ci, ivs, cur, out>>
+(* what the deletion modifier iterates over *)
+Work == IF Relabel = "none" THEN in.series ELSE Merged(in.series)
 
 Init == /\ in \in { Concrete(x) : x \in AbstractInputs }
         /\ pc = "series" /\ si = 1 /\ ci = 0 /\ ivs = <<>> /\ cur = <<>> /\ out = <<>>
@@ -78,11 +99,11 @@ Init == /\ in \in { Concrete(x) : x \in AbstractInputs }
 (* delModifierSeriesSet.Next for one series: DeletionsLoop *)
 SeriesStep ==
     /\ pc = "series"
-    /\ IF si > Len(in.series)
+    /\ IF si > Len(Work)
          THEN pc' = "done" /\ UNCHANGED <<si, ci, ivs, cur>>
-       ELSE IF WAlgoWhole(in.reqs, in.series[si].labels)
+       ELSE IF WAlgoWhole(in.reqs, Work[si].labels)
          THEN si' = si + 1 /\ UNCHANGED <<pc, ci, ivs, cur>>                   \* continue SeriesLoop
-       ELSE /\ ivs' = WAlgoIntervals(in.reqs, in.series[si].labels)
+       ELSE /\ ivs' = WAlgoIntervals(in.reqs, Work[si].labels)
             /\ ci' = 1 /\ cur' = <<>> /\ pc' = "chunks" /\ UNCHANGED si
     /\ UNCHANGED <<in, out>>
 
@@ -90,10 +111,10 @@ SeriesStep ==
 (* the writer adds the series unless no chunk is left                                                  *)
 ChunkStep ==
     /\ pc = "chunks"
-    /\ IF ci > Len(in.series[si].chunks)
-         THEN /\ out' = IF cur = <<>> THEN out ELSE Append(out, [labels |-> in.series[si].labels, chunks |-> cur])
+    /\ IF ci > Len(Work[si].chunks)
+         THEN /\ out' = IF cur = <<>> THEN out ELSE Append(out, [labels |-> Work[si].labels, chunks |-> cur])
               /\ si' = si + 1 /\ pc' = "series" /\ UNCHANGED <<ci, cur>>
-         ELSE LET r == WAlgoChunk(in.series[si].chunks[ci], ivs) IN
+         ELSE LET r == WAlgoChunk(Work[si].chunks[ci], ivs) IN
               /\ cur' = IF r.samples = <<>> THEN cur ELSE Append(cur, r.samples)
               /\ ci' = ci + 1 /\ UNCHANGED <<out, si, pc>>
     /\ UNCHANGED <<in, ivs>>
@@ -103,12 +124,14 @@ Next == SeriesStep \/ ChunkStep \/ DoneStep
 Spec == Init /\ [][Next]_vars
 
 (* ---- C48 on the algorithm ---- *)
-C48_ResultSatisfiesProperty == pc = "done" => WViolations(in.series, in.reqs, out) = {}
+C48_ResultSatisfiesProperty == pc = "done" =>
+    IF Relabel = "none" THEN WViolations(in.series, in.reqs, out) = {} ELSE WViolationsR(in.series, in.reqs, out) = {}
 (* the functional form used by the trace spec for model conformance is what the steps compute *)
-FunctionalFormAgrees == pc = "done" => out = WAlgoOut(in.series, in.reqs)
+FunctionalFormAgrees == pc = "done" => /\ out = WAlgoOut(Work, in.reqs)
+                                        /\ Relabel # "none" => WTimesOf(out) = WTimesOf(WAlgoOut(WAlgoMerged(in.series), in.reqs))
 Progress == [][pc' = pc => (si' > si \/ ci' > ci \/ pc = "done")]_vars
 
 (* ---- leg B ---- *)
 CasesFile == IF "VERIF_CASES" \in DOMAIN IOEnv THEN IOEnv.VERIF_CASES ELSE "cases.ndjson"
-ASSUME ndJsonSerialize(CasesFile, SetToSeq({ x \in AbstractInputs : EmitTwoRequests \/ Family # "time" \/ Len(x.reqs) = 1 }))
+ASSUME ndJsonSerialize(CasesFile, SetToSeq({ [series |-> x.series, reqs |-> x.reqs, relabel |-> Relabel] : x \in { x \in AbstractInputs : EmitTwoRequests \/ Family # "time" \/ Len(x.reqs) = 1 } }))
 =============================================================================
